@@ -189,7 +189,15 @@ pub fn load_pnm(path: impl AsRef<Path>) -> Result<Buf2<Color3>> {
 /// Returns [`pnm::Error`][Error] in case of an I/O error or invalid PNM image.
 #[cfg(feature = "std")]
 pub fn read_pnm(input: impl Read) -> Result<Buf2<Color3>> {
-    parse_pnm(input.bytes().map_while(io::Result::ok))
+    let mut io_res: Result<()> = Ok(());
+    let res = parse_pnm(input.bytes().map_while(|r| match r {
+        Err(e) => {
+            io_res = Err(e.into());
+            None
+        }
+        Ok(b) => Some(b),
+    }));
+    io_res.and(res)
 }
 
 /// Attempts to decode a PNM image from an iterator of bytes.
